@@ -21,6 +21,7 @@ import PoetryVerif.Proofs.EqHashDep
 import PoetryVerif.Proofs.EqHashParse
 import PoetryVerif.Proofs.VersionParse
 import PoetryVerif.Proofs.VRangeSpecSet
+import PoetryVerif.Proofs.VRangeTextU
 
 set_option linter.unusedSimpArgs false
 set_option linter.unusedVariables false
@@ -273,6 +274,27 @@ theorem constraint_reparse_eq_or_equiv (c c' : VC) (s : String) (hs : c.toStr = 
     (Marker.VC.eqv c c' = true → vcHash c = vcHash c' ∧ Marker.VC.eqv c' c = true) ∧
       (∀ p, p.wf = true → Regular (c.bounds ++ c'.bounds) p → c'.allows p = c.allows p) :=
   ⟨fun h => ⟨vcHash_eq hc hc' h, vc_eqv_symm hc hc' h⟩, hrt⟩
+
+/-- **re-parsing the text of a constraint, with C15's string-level round trip supplied** (`VC.text_roundtrip`:
+single versions, plain ranges, `*`, `||` joins, `!=V`; hypotheses `Tidy`, `TextOK`, `RegB` for unions, no wildcard
+spelling): the text is printed, `parse_constraint` reads it back, the re-read constraint admits the same versions,
+and when it is `==` to the original it has the same hash input.  The non-degeneracy guards are discharged (both
+constraints are well-formed). -/
+theorem constraint_reparse_closed (c : VC) (hwf : c.WF) (hne : c.isEmpty = false)
+    (htidy : ∀ m ∈ c.flatten, m.Tidy) (htext : ∀ e ∈ c.bounds, TextOK e)
+    (hreg : ∀ rs, c = .union rs → RegB c.bounds) (hplain : PlainSpelling c) :
+    ∃ s c', c.toStr = .ok s ∧ VParser.parseConstraint s = .ok c' ∧
+      (Marker.VC.eqv c c' = true → vcHash c = vcHash c' ∧ Marker.VC.eqv c' c = true) ∧
+      (∀ p, p.wf = true → Regular (c.bounds ++ c'.bounds) p → c'.allows p = c.allows p) := by
+  obtain ⟨s, c', h1, h2, h3⟩ := VC.text_roundtrip c hwf hne htidy htext hreg hplain
+  have hc : vcNonDegenerate c = true := vcND_of_vcWF (by
+    intro r hr
+    cases c with
+    | empty => simp [VC.flatten] at hr
+    | single m => simp [VC.flatten] at hr; subst hr; exact hwf.1
+    | union rs => exact (hwf.2.1 r (by simpa [VC.flatten] using hr)).1)
+  have hc' : vcNonDegenerate c' = true := vcND_of_vcWF (parseConstraint_WF s c' h2)
+  exact ⟨s, c', h1, h2, (constraint_reparse_eq_or_equiv c c' s h1 h2 h3 hc hc').1, h3⟩
 
 /-! ## string constraints (generic and `extra`): `__eq__` is structural on the model's representation -/
 
